@@ -18,7 +18,9 @@ Inductive oevent :=
 | OAck (c n : N)                  (* LogPin/LogUnpin of command c returned nil; node n ran CommitOp *)
 | OObs (n : N) (o : option (list pin))   (* Consensus.State on n: None = error, Some = List(), sorted by cid *)
 | OTrk (n : N) (cs : list tcall)  (* every PinTracker call node n's RPC server received so far *)
-| OOffline (n : N) (l : list pin).   (* OfflineState of n's data *)
+| OOffline (n : N) (l : list pin)    (* OfflineState of n's data *)
+| OReady (n m0 : N) (o : option (list pin)).  (* C17: Consensus.State on n right after its WaitForSync returned; m0 = entries
+                                         committed when the AddPeer that admitted n returned *)
 
 (* ---- equality on observables ---- *)
 Definition optZN_eqb (a b : option (Z * N)) : bool :=
@@ -78,6 +80,12 @@ Definition model_step (cmds : list logop) (cl : cluster) (e : oevent) : cluster 
            end)
   | OTrk n cs => (cl, multiset_eqb (calls (getn (nn n) cl)) cs)
   | OOffline n l => (cl, pins_eqb (map snd (offline (getn (nn n) cl))) l)
+  | OReady n _ o =>
+      (cl, match view (getn (nn n) cl), o with
+           | Some s, Some l => pins_eqb (map snd s) l
+           | None, None => true
+           | _, _ => false
+           end)
   end.
 Fixpoint model_run (cmds : list logop) (cl : cluster) (es : list oevent) : bool :=
   match es with
@@ -133,6 +141,11 @@ Definition spec_step (cmds : list logop) (lg : list N) (sn : list snode) (e : oe
       (lg, sn, match rev (s_labels (sgetn (nn n) sn)) with
                | [] => match l with [] => true | _ => false end
                | lb :: _ => pins_eqb (map snd (replay (firstn lb ops))) l end)
+  | OReady n m0 o =>                                                                    (* ready: a prefix that covers everything committed before the join returned *)
+      (lg, sn, match o with
+               | Some l => let a := Nat.max (s_applied (sgetn (nn n) sn)) (nn m0) in
+                           existsb (fun m => pins_eqb (map snd (replay (firstn m ops))) l) (seq a (S (length lg - a)))
+               | None => false end)
   end.
 Fixpoint spec_run (cmds : list logop) (lg : list N) (sn : list snode) (es : list oevent) : bool :=
   match es with
